@@ -23,7 +23,7 @@ from ..machine import RELATIONS, TIME_ATTRS, PROV_URI, REQUIRED
 
 A = "http://a/"
 EX = Namespace("ex", A)
-KINDS = dict(RELATIONS)
+KINDS = {k: v for k, v in RELATIONS.items() if k not in machine.SUBTYPE_FACTORIES}
 KINDS["activity"] = ("Activity", ("startTime", "endTime"))
 KINDS["entity"] = ("Entity", ())
 KINDS["agent"] = ("Agent", ())
